@@ -244,6 +244,8 @@ _UNARY_OPERATORS = unary_arithmetic_operators | set(date_part_operators) | {
     '$arrayToObject', '$isArray', '$isNumber', '$not', '$objectToArray',
     '$toDecimal', '$toInt', '$toLong', '$toLower', '$toString', '$toUpper',
 }
+# The operators that take any number of arguments: one that is not an array may be given bare.
+_VARIADIC_OPERATORS = {'$add', '$and', '$concat', '$multiply', '$or', '$setUnion'}
 
 
 class _Parser(object):
@@ -274,6 +276,8 @@ class _Parser(object):
                         'Expression %s takes exactly 1 arguments. %d were passed in.'
                         % (k, len(v)))
                 v = v[0]
+            if k in _VARIADIC_OPERATORS and not isinstance(v, (list, tuple)):
+                v = [v]
             if k in arithmetic_operators:
                 return self._handle_arithmetic_operator(k, v)
             if k in project_operators:
